@@ -15,6 +15,7 @@ import Driver.C18
 import Driver.C20
 import Driver.C19
 import Driver.C16
+import Driver.C11
 open Kv
 
 structure DState where
@@ -33,6 +34,7 @@ def dispatch (st : DState) (prop : String) (l : Line) : DState × String :=
   | "C02" => (st, Drv.C02.step l)
   | "C12" => (st, Drv.C12.step l)
   | "C20" => (st, Drv.C20.step l)
+  | "C11" => (st, Drv.C11.step l)
   | "C04" => let (s, r) := Drv.Flow.step "C04" st.c04 l; ({ st with c04 := s }, r)
   | "C07" => let (s, r) := Drv.Flow.step "C07" st.c07 l; ({ st with c07 := s }, r)
   | "C14" => (st, Drv.C14.step l)
